@@ -65,7 +65,7 @@ NAME_CLASSES = {
 LEVELS = {"error": logging.ERROR, "warning": logging.WARNING, "info": logging.INFO, "debug": logging.DEBUG}
 ARGSETS: list[tuple[str, list[Any]]] = [
     ("m{t} plain", []), ("m{t} %s", ["x"]), ("m{t} %d items", [5]), ("m{t} %s=%r", ["k", 1.5]), ("m{t} %s %s %s", [["obj", "o1"], None, True]),
-    ("m{t} 100%% sure %s", ["yes"]), ("m{t} ends with percent 100%", []), ("m{t} %5.2f|%-4s|", [3.14159, "ab"]), ("m{t} {braces} %s", [["obj", "{}"]]),
+    ("m{t} 100%% sure %s", ["yes"]), ("m{t} lazily %s", [["relog", "n{t}"]]), ("m{t} ends with percent 100%", []), ("m{t} %5.2f|%-4s|", [3.14159, "ab"]), ("m{t} {braces} %s", [["obj", "{}"]]),
 ]
 BAD_ARGSETS: list[tuple[str, list[Any]]] = [("b{t} %s %s", ["only-one"]), ("b{t} %d", ["not-a-number"]), ("b{t} no placeholders", ["extra"])]
 SAMPLE = {"quick": 1500, "thorough": 40000}
@@ -78,6 +78,7 @@ def build(forest: list[dict[str, Any]], rng: random.Random) -> list[dict[str, An
         lid[0] += 1
         fmt, args = rng.choice(BAD_ARGSETS if bad else ARGSETS)
         level = rng.choice(list(LEVELS))
+        args = [[a[0], a[1].replace("{t}", str(lid[0]))] if isinstance(a, list) and a and a[0] == "relog" else a for a in args]
         return {"op": "log", "id": lid[0], "level": level, "fmt": fmt.replace("{t}", f"<{lid[0]}>"), "args": args, "exc": level != "info" and rng.random() < 0.25, "bad": bad}
 
     def logs(k: int) -> list[dict[str, Any]]:
@@ -283,8 +284,15 @@ def judge(R: Recorder, forest: list[dict[str, Any]], prog: list[dict[str, Any]],
             R.count("own_logger_below_root")
         R.monitor("logger", r.name == want_logger, where={**wcall, "kind": "wrong-logger", "own": bool(scope and blocks[scope][0].get("logger"))}, detail=f"call {lid} in scope {scope}: record emitted to logger {r.name!r}, expected {want_logger!r}", case=rec)
         R.monitor("level", r.levelno == LEVELS[step["level"]], where={"kind": "wrong-level", "level": step["level"]}, detail=f"call {lid}: level {r.levelno}, requested {step['level']}", case=rec)
-        args = tuple(World.log_arg(a) for a in step["args"])
+        args = tuple("rendered" if isinstance(a, list) and a and a[0] == "relog" else World.log_arg(a) for a in step["args"])
         text = step["fmt"] % args if args else step["fmt"]
+        for a in step["args"]:
+            if isinstance(a, list) and a and a[0] == "relog":
+                # the message logged from inside the rendering of this call's argument: same scope, same logger, delivered once
+                inner = [x for x in recs if f"<{a[1]}>" in str(x.msg)]
+                R.count("messages_logged_while_rendering")
+                R.monitor("delivered", len(inner) == 1 and inner[0].name == want_logger, where={**wcall, "kind": "lost" if not inner else "nested-log-misrouted", "reentrant": True},
+                          detail=f"call {lid} renders an argument that itself logs '<{a[1]}> ...' through the context: {len(inner)} such records, loggers {[x.name for x in inner]} (expected one on {want_logger!r})", case=rec)
         if scope is None:
             R.monitor("message", msg == text, where={**wcall, "kind": "untagged-message-differs"}, detail=f"call {lid} outside scopes: message {msg!r}, expected exactly {text!r}", case=rec)
         else:
